@@ -1004,7 +1004,9 @@ impl Monitor {
         if e.opcode == 0xff && !e.is_eof {
             let rec = SdView { sd_in_step: e.sds, sd_expect: e.sd_expect };
             let n = rec.sd_in_step.len();
-            if res == InstructionResult::SelfDestruct {
+            // "completes" = the instruction did not fail (whatever success code it ends the
+            // frame with: a repeated self-destruct of one account completes like the first)
+            if res.is_ok() {
                 let (c, b, bal, created) = rec.sd_expect.unwrap_or_default();
                 let cancun = spec.is_enabled_in(SpecId::CANCUN);
                 let case = if cancun && !created && c == b { "cancun-self-target-preexisting" } else if c == b { "self-target" } else { "other-target" };
